@@ -65,6 +65,31 @@ def counter_walk(rng, region, start_down, classc):
     return net.line()
 
 
+def size_boundary(rng, region, classc):
+    """authentic fresh downlinks whose length straddles the maximum of the data rate they were received at (PHY length M+3 .. M+7)"""
+    net = machist.Net(rng, region)
+    net.abp()
+    net.snap()
+    for m in rng.sample([11, 19, 51, 53, 59, 61, 115, 123, 125, 133, 222, 230, 242, 250], 5):
+        for delta in (-2, -1, 0, 1, 2):
+            total = m + 5 + delta           # MHDR + MACPayload(m + delta) + MIC
+            if total > 255 or total < 13:
+                continue
+            nf = rng.choice([0, 0, 3, 15])
+            room = total - 12 - nf - 1      # bytes left for FRMPayload after FHDR(7+nf), FPort, MHDR, MIC
+            if room < 0:
+                nf, room = 0, total - 13
+            net.send(b"u", 1, False)
+            rxc = classc and rng.chance(1, 3)
+            fits = total <= m + 5
+            net.downlink(fopts=bytes([0x06] * nf) if False else b"", port=rng.range(1, 200), payload=rng.bytes(total - 13), confirmed=rng.chance(1, 3),
+                         accept=fits, rxc=rxc, maxp=m)
+            if rxc or not fits or rng.chance(1, 2):
+                net.rx2c()
+            net.snap()
+    return net.line()
+
+
 def gen(rng, tier):
     lines = []
     starts = [None, 0xFFF0, 0xFFFF, 0x10000 - 16384, 0x1FFF0, 0xFFFF0000 - 5, 0xFFFFFFFF - 20000, 0xFFFFFFFF - 3, 0xFFFFFFFF]
@@ -72,6 +97,8 @@ def gen(rng, tier):
     for i in range(n):
         for st in starts:
             lines.append(counter_walk(rng.fork("w%d-%s" % (i, st)), rng.below(9), st, i % 2 == 0))
+    for i in range(36 if tier == "quick" else 600):
+        lines.append(size_boundary(rng.fork("s%d" % i), i % 9, i % 2 == 0))
     for i in range(60 if tier == "quick" else 1500):
         lines.append(machist.random_history(rng.fork("h%d" % i), i % 9, 25, classc=(i % 2 == 0)))
     return lines
@@ -97,6 +124,6 @@ def run(rep, tier, rng):
     macstage.oracle_pass(rep, lines, KINDS)
     rep.cov["rule"] = ("counter arithmetic: all 2^16 wire values for `last` on a stride through +-70000 of 0, 2^16, k*2^16, 2^31.., 2^32-1 (digest sweeps); "
                        "device histories: accepted counters walking across 0xFFFF/0x10000 and up to 2^32-1 (sessions patched through serde), "
-                       "replays, reordered, far-future (gap 16385+), wrong-epoch MIC, forged frames, Class A and Class C receive paths; "
+                       "authentic frames of PHY length M+3..M+7 for 14 data-rate maxima M in Class A and C windows; replays, reordered, far-future (gap 16385+), wrong-epoch MIC, forged frames, Class A and Class C receive paths; "
                        "every response also judged by an independent python reference (CMAC + freshness rule)")
     core.finish_proof_failures(rep)
